@@ -111,11 +111,12 @@ func histCases(d histDesc) []hx.Case {
 	keyb, _ := json.Marshal(d)
 	c.Key = string(keyb)
 
-	inst := graph.New(newFactory())
+	_, inst := newApp(d) // the live graph is an application's (saves are App.Schema())
+	defer func() { forget(inst) }()
 	opsCoq, oks := applyOps(inst, d.Ops)
 	fail := func(msg, key string) []hx.Case {
 		c.GoFail, c.FailKey = msg, key
-		c.Coq = fmt.Sprintf("CHist false [%s] [%s] JNull JNull JNull [] false None None None 0 0 None",
+		c.Coq = fmt.Sprintf("CHist false [%s] [%s] JNull JNull JNull [] false None None None [] 0 None",
 			strings.Join(opsCoq, ";\n  "), strings.Join(oks, ";"))
 		return []hx.Case{c}
 	}
@@ -125,19 +126,32 @@ func histCases(d histDesc) []hx.Case {
 		return fail("before reload: "+a.err, "graph:save-fails")
 	}
 	lastInfo = a.sv.info
-	// the SAME instance saved repeatedly
-	digs := []string{digest(a.sv.bytes).s}
-	for k := 0; k < 3; k++ {
-		var again []byte
-		if o := guard(func() error { again = saveInstance(inst, d); return nil }); !o.ok {
-			return fail("repeated save: "+o.msg, "graph:save-fails")
+	// the SAME application saved repeatedly (App.Schema() x4), and its instance once more at graph level
+	// (EncodeToAppSchema with a fresh encoder)
+	resaves := func(i *graph.Instance, first []byte) ([]string, string) {
+		ds := []string{digest(first).s}
+		for k := 0; k < 4; k++ {
+			var again []byte
+			save := saveInstance
+			if k == 3 {
+				save = saveGraphLevel
+			}
+			if o := guard(func() error { again = save(i, d); return nil }); !o.ok {
+				return nil, o.msg
+			}
+			ds = append(ds, digest(again).s)
 		}
-		digs = append(digs, digest(again).s)
+		return ds, ""
+	}
+	digs, rerr := resaves(inst, a.sv.bytes)
+	if rerr != "" {
+		return fail("repeated save: "+rerr, "graph:save-fails")
 	}
 
-	// load into a fresh instance
-	inst2 := graph.New(newFactory())
-	ro := guard(func() error { return inst2.ApplyAppSchema(a.sv.bytes) })
+	// load into a fresh application (fresh App, ApplySchema), saved repeatedly as well
+	app2, inst2 := newApp(histDesc{})
+	defer func() { forget(inst2) }()
+	ro := guard(func() error { return app2.ApplySchema(a.sv.bytes) })
 	b := obs{sum: jnull(), art: jnull()}
 	file2, dig2 := jnull(), "0"
 	if ro.ok {
@@ -145,11 +159,15 @@ func histCases(d histDesc) []hx.Case {
 		if b.err != "" {
 			return fail("after reload: "+b.err, "graph:resave-fails")
 		}
-		file2, dig2 = b.sv.info.tree, digest(b.sv.bytes).s
+		ds, rerr := resaves(inst2, b.sv.bytes)
+		if rerr != "" {
+			return fail("repeated save after reload: "+rerr, "graph:resave-fails")
+		}
+		file2, dig2 = b.sv.info.tree, strings.Join(ds, ";")
 	}
-	// and through the real generator.App (fresh App, ApplySchema, Schema)
+	// and into a bare graph.Instance (ApplyAppSchema), saved at graph level
 	digApp := "0"
-	if out, o := appReload(a.sv.bytes); o.ok {
+	if out, o := plainReload(a.sv.bytes, d); o.ok {
 		digApp = digest(out).s
 	}
 
@@ -162,7 +180,7 @@ func histCases(d histDesc) []hx.Case {
 		return "None"
 	}
 	render := func(modulo bool, sumB, artB, f2 jv, d2, dApp, cont string) string {
-		return fmt.Sprintf("CHist %v\n [%s]\n [%s]\n %s\n %s\n %s\n [%s] %v\n %s\n %s\n %s\n %s %s\n %s",
+		return fmt.Sprintf("CHist %v\n [%s]\n [%s]\n %s\n %s\n %s\n [%s] %v\n %s\n %s\n %s\n [%s] %s\n %s",
 			modulo, strings.Join(opsCoq, ";\n  "), strings.Join(oks, ";"),
 			a.sum.Coq(), a.art.Coq(), a.sv.info.tree.Coq(), strings.Join(digs, ";"), ro.ok,
 			same(a.sum, sumB), same(a.art, artB), same(a.sv.info.tree, f2), d2, dApp, cont)
@@ -178,15 +196,26 @@ func histCases(d histDesc) []hx.Case {
 		if l.err != "" {
 			return "None", "after the continuation: " + l.err
 		}
-		re := observe(inst2, d)
-		sumR, artR, fileR, digR := jstr(re.err), jnull(), jnull(), "0"
-		if re.err == "" {
-			sumR, artR, fileR, digR = re.sum, re.art, re.sv.info.tree, digest(re.sv.bytes).s
+		cdigs, rerr := resaves(inst, l.sv.bytes)
+		if rerr != "" {
+			return "None", "repeated save after the continuation: " + rerr
 		}
-		return fmt.Sprintf("(Some (mkcont\n [%s]\n [%s] [%s]\n %s\n %s\n %s\n %s\n %s\n %s\n %s %s))",
+		re := observe(inst2, d)
+		sumR, artR, fileR := jstr(re.err), jnull(), jnull()
+		if re.err == "" {
+			sumR, artR, fileR = re.sum, re.art, re.sv.info.tree
+			ds, rerr := resaves(inst2, re.sv.bytes)
+			if rerr != "" {
+				ds = []string{"0"}
+			}
+			cdigs = append(cdigs, ds...)
+		} else {
+			cdigs = append(cdigs, "0")
+		}
+		return fmt.Sprintf("(Some (mkcont\n [%s]\n [%s] [%s]\n %s\n %s\n %s\n %s\n %s\n %s\n [%s]))",
 			strings.Join(opsL, ";\n  "), strings.Join(oksL, ";"), strings.Join(oksR, ";"),
 			l.sum.Coq(), l.art.Coq(), l.sv.info.tree.Coq(), same(l.sum, sumR), same(l.art, artR), same(l.sv.info.tree, fileR),
-			digest(l.sv.bytes).s, digR), ""
+			strings.Join(cdigs, ";")), ""
 	}
 	c.Coq = render(false, b.sum, b.art, file2, dig2, digApp, "None")
 	c.Nontriv = a.sv.info.nDeps >= 1 && len(a.sv.info.ids) >= 2
@@ -196,8 +225,12 @@ func histCases(d histDesc) []hx.Case {
 	for _, x := range digs {
 		sameDigs = sameDigs && x == digs[0]
 	}
+	sameDigs2 := true
+	for _, x := range strings.Split(dig2, ";") {
+		sameDigs2 = sameDigs2 && x == digs[0]
+	}
 	strict := ro.ok && sameDigs && a.sum.equal(b.sum) && a.art.equal(b.art) && a.sv.info.tree.equal(file2) &&
-		dig2 == digs[0] && digApp == digs[0]
+		sameDigs2 && digApp == digs[0]
 	if strict && len(d.Cont) > 0 {
 		cont, err := continuation()
 		if err != "" {
@@ -257,10 +290,16 @@ func histCases(d histDesc) []hx.Case {
 	if m.err != "" {
 		return out
 	}
-	var again []byte
-	guard(func() error { again = saveInstance(inst2, d); return nil })
+	mdigs, rerr := resaves(inst2, m.sv.bytes)
+	if rerr != "" {
+		return out
+	}
+	againOK := true
+	for _, x := range mdigs {
+		againOK = againOK && x == digs[0]
+	}
 	modOK := a.sum.equal(m.sum) && a.art.equal(m.art) && a.sv.info.tree.equal(m.sv.info.tree) &&
-		bytes.Equal(m.sv.bytes, a.sv.bytes) && bytes.Equal(again, a.sv.bytes)
+		bytes.Equal(m.sv.bytes, a.sv.bytes) && againOK
 	if modOK {
 		// a history showing both defects is reported under the Image key (the repairable one)
 		if needImg {
@@ -278,7 +317,7 @@ func histCases(d histDesc) []hx.Case {
 		}
 		run_count("continuation:after-repaired-reload")
 	}
-	c2.Coq = render(true, m.sum, m.art, m.sv.info.tree, digest(m.sv.bytes).s, digs[0], cont)
+	c2.Coq = render(true, m.sum, m.art, m.sv.info.tree, strings.Join(mdigs, ";"), digs[0], cont)
 	return append(out, c2)
 }
 
